@@ -63,6 +63,20 @@ CHECKS["C06"] = (
     "DESIGN.md §3 C06",
 )
 
+CHECKS["C07"] = (
+    "exploration",
+    "bounded-exhaustive enumeration of transform x lattice point (and topology x date pattern) against autograd Jacobians",
+    "For every shipped bijective transform and the torch transforms the CLI generates: the full lattice "
+    "{5 values}^d, d=1..5; for the ratio / increment node-height transforms every labelled rooted topology "
+    "(n<=5, thorough 6) x every sampling-date pattern, and the log-rate-difference transform on every "
+    "topology: reported log|det J| vs slogdet of the autograd Jacobian (1e-9), inverse round trip (1e-10), "
+    "and the value returned by calling the TransformedParameter / ReparameterizedTimeTreeModel after each "
+    "of a sequence of parameter updates. The run fails if a shipped Transform class is neither checked nor "
+    "listed as not invertible.",
+    "torch.autograd.functional.jacobian + slogdet is the trusted reference; lattice of points only.",
+    "DESIGN.md §3 C07",
+)
+
 NOT_APPLICABLE = {}
 
 PENDING_REASON = ("check not built yet in this revision (planned in DESIGN.md §3); "
